@@ -35,6 +35,8 @@ IdOf(r) == <<idr[r], 1>>
 ToBal(pairs) == [r \in {pairs[i][1] : i \in 1..Len(pairs)} |-> pairs[CHOOSE i \in 1..Len(pairs) : pairs[i][1] = r][2]]
 IdBal(f) == [id \in {IdOf(r) : r \in DOMAIN f} |-> f[CHOOSE r \in DOMAIN f : IdOf(r) = id]]
 ToIdBal(pairs) == IdBal(ToBal(pairs))
+RECURSIVE SumSeqN(_)
+SumSeqN(q) == IF q = <<>> THEN 0 ELSE Head(q) + SumSeqN(Tail(q))
 
 InvEntry(rec, o) == rec.inv[CHOOSE k \in 1..Len(rec.inv) : rec.inv[k].o = o]
 InInv(rec, o) == \E k \in 1..Len(rec.inv) : rec.inv[k].o = o
@@ -114,11 +116,39 @@ Drift(rec) ==
                /\ Chk("drift.runeRules", rec.dry \/ (eff.allocated = Got(rec) /\ eff.burnedTx = Burned(rec)),
                       <<"model", eff.allocated, eff.burnedTx, "index", rec.after>>)
 
+\* ---------------------------------------------------------------- the wallet's view of itself (`ord wallet balance`)
+\* values are pairs <<v \div 10^8, v % 10^8>>
+E8 == 100000000
+AddP(a, b) == LET lo == a[2] + b[2] IN <<a[1] + b[1] + lo \div E8, lo % E8>>
+RECURSIVE SumP(_)
+SumP(s) == IF s = <<>> THEN <<0, 0>> ELSE AddP(Head(s), SumP(Tail(s)))
+ValuesWhere(rec, P(_)) == LET sel == SelectSeq(rec.outs, P) IN [k \in 1..Len(sel) |-> sel[k].v]
+View(rec) ==
+  LET card == SumP(ValuesWhere(rec, LAMBDA o : ~o.insc /\ o.runes = <<>>))
+      ord == SumP(ValuesWhere(rec, LAMBDA o : o.insc))
+      run == SumP(ValuesWhere(rec, LAMBDA o : o.runes # <<>>))
+      both == \E k \in 1..Len(rec.outs) : rec.outs[k].insc /\ rec.outs[k].runes # <<>>
+      perRune == LET bals == [k \in 1..Len(rec.outs) |-> ToBal(rec.outs[k].runes)]
+                     rs == UNION {DOMAIN bals[k] : k \in 1..Len(bals)}
+                 IN [r \in rs |-> SumSeqN([k \in 1..Len(bals) |-> Get(bals[k], r)])]
+      info == <<rec.cardinal, rec.ordinal, rec.runic, rec.total, rec.runes, rec.tag>>
+  IN /\ Chk("view.ok", rec.ok, info)
+     /\ Chk("view.cardinal", rec.cardinal = card, <<info, card>>)
+     /\ Chk("view.ordinal", rec.ordinal = ord, <<info, ord>>)
+     /\ Chk("view.runic", rec.runic = run, <<info, run>>)
+     \* the total is the sum of the three classes: an output that is both inscribed and runic is counted twice (and warned about)
+     /\ Chk("view.total", rec.total = AddP(card, AddP(ord, run)), info)
+     /\ Chk("view.totalIsEverything", ~both => rec.total = SumP([k \in 1..Len(rec.outs) |-> rec.outs[k].v]), info)
+     /\ Chk("view.warned", rec.warned = both, info)
+     /\ Chk("view.runes", ToBal(rec.runes) = perRune, <<info, perRune>>)
+
 Init == l = 1 /\ idr = <<>>
 Next == /\ l <= Len(Rec)
         /\ LET rec == Rec[l] IN
            IF rec.event = "World"
            THEN idr' = [r \in {rec.runes[i].r : i \in 1..Len(rec.runes)} |-> rec.runes[CHOOSE i \in 1..Len(rec.runes) : rec.runes[i].r = r].idr]
+           ELSE IF rec.event = "Balance"
+           THEN UNCHANGED idr /\ (PROP = "VIEW" => View(rec))
            ELSE /\ UNCHANGED idr
                 /\ (PROP = "C22" => C22(rec))
                 /\ (PROP = "C23" => C23(rec))
